@@ -91,7 +91,7 @@ fn users_pool() -> Vec<ColPool> {
 fn orders_pool() -> Vec<ColPool> {
     vec![
         ColPool { name: "amount", variants: vec![ColType::FloatRange { lo: 0.0, hi: 100.0 }, ColType::FloatRange { lo: -50.0, hi: 50.0 }, ColType::FloatRange { lo: 10.0, hi: 20.0 }, ColType::IntRange { lo: 0, hi: 1000 }, ColType::FloatRange { lo: 0.0, hi: 1e-9 }], can_be_optional: true },
-        ColPool { name: "qty", variants: vec![ColType::IntRange { lo: 0, hi: 30 }, ColType::IntValues(vec![1, 2, 3, 5]), ColType::IntRange { lo: 1, hi: 3 }, ColType::IntValues(vec![0, 10])], can_be_optional: true },
+        ColPool { name: "qty", variants: vec![ColType::IntRange { lo: 0, hi: 30 }, ColType::IntValues(vec![1, 2, 3, 5]), ColType::IntRange { lo: 1, hi: 3 }, ColType::IntRange { lo: 0, hi: 5 }, ColType::IntRange { lo: 1, hi: 8 }, ColType::IntValues(vec![0, 10])], can_be_optional: true },
         ColPool { name: "status", variants: vec![tv(&["a", "b", "c"]), tv(&["open", "closed"]), ColType::Text], can_be_optional: false },
         ColPool { name: "note", variants: vec![ColType::Text], can_be_optional: true },
         ColPool { name: "disc", variants: vec![ColType::FloatValues(vec![0.0, 0.5, 1.0]), ColType::FloatRange { lo: 0.0, hi: 1.0 }], can_be_optional: false },
